@@ -156,3 +156,34 @@ class MsgTap(object):
 
     def fatal_alerts(self):
         return [m for m in self.alerts() if m.get("level") == 2]
+
+
+class AlertWriteFault(object):
+    """Transport fault placed at one particular write: from the moment the
+    connection hands a (fatal) alert record to its record layer, the sends of
+    its socket fail with `kind`.  'timeout' is transient (only while that
+    record is being written), 'epipe' / 'reset' persist.  What the endpoint
+    received stays readable."""
+
+    def __init__(self, conn, sock, kind, fatal_only=True):
+        self.fired = 0
+        rl = conn._recordLayer
+        orig = rl.sendRecord
+        tap = self
+
+        def sendRecord(msg):
+            hit = msg.contentType == 21 and not (
+                fatal_only and bytes(msg.write()[:1]) != b"\x02")
+            if not hit:
+                for r in orig(msg):
+                    yield r
+                return
+            tap.fired += 1
+            sock.peer_gone = kind
+            try:
+                for r in orig(msg):
+                    yield r
+            finally:
+                if kind == "timeout":
+                    sock.peer_gone = None
+        rl.sendRecord = sendRecord
